@@ -29,6 +29,7 @@ mod p_c15;
 mod p_c16;
 mod p_c17;
 mod p_c18;
+mod p_c19;
 mod p_c20;
 mod rng;
 mod spec;
@@ -59,6 +60,7 @@ fn run_one(prop: &str, ctx: &mut CaseCtx) -> CaseResult {
         "C16" => p_c16::run_case(ctx),
         "C17" => p_c17::run_case(ctx),
         "C18" => p_c18::run_case(ctx),
+        "C19" => p_c19::run_case(ctx),
         "C20" => p_c20::run_case(ctx),
         _ => {
             let mut r = CaseResult::new("unknown-property");
@@ -318,6 +320,7 @@ fn main() {
                 ("C04", _) => p_c04::child_main(&a),
                 ("C10", _) => p_c10::child_main(&a),
                 ("C11", _) => p_c11::child_main(&a),
+                ("C19", _) => p_c19::child_main(&a),
                 _ => {
                     eprintln!("no child role {} for {}", a.role, a.prop);
                     2
